@@ -295,7 +295,10 @@ class AudioIO(object):
     Updates internal status about open recording streams. Should be called
     only by the internal closing mechanism of children RecStream instances.
     """
-    self._recordings.remove(recst)
+    for idx, item in enumerate(self._recordings): # By identity: "==" between
+      if item is recst:                           # Stream objects is elementwise
+        del self._recordings[idx]
+        break
 
   def record(self, chunk_size = None,
                    dfmt = "f",
